@@ -7,28 +7,33 @@ from lv import core, model, ref, canon, drive, functorgen
 from lv.props import common
 
 ID = 'C04'
-BUDGET = {'quick': 256, 'thorough': 4000}      # generated programs (~16 predicates each)
+BUDGET = {'quick': 192, 'thorough': 3000}      # generated programs (~20 evaluations each)
 WALL = {'quick': 2400, 'thorough': 14400}   # last resort only; a shard cut here loses its cases
 RULE = ('layered non-recursive programs from the typed generator (facts with duplicates, '
         'joins, disjunction, negation, aggregation, functional predicates, nullary '
-        'functional constants) with 1-6 statements N := F(A: B, ...) printed at random '
+        'functional constants, optionally one intermediate predicate with @OrderBy over '
+        'all its columns + @Limit) with 1-7 statements N := F(A: B, ...) printed at random '
         'positions under names whose lexicographic order is unrelated to their '
         'dependency order: argument reached directly and through chains of 1-4 intermediate '
-        'predicates, 1-3 arguments at once (also an argument below another argument), '
-        'values that are fact twins / derived twins of equal signature / predicates that '
-        'read the argument or the functor themselves / literals and constant predicates '
-        'for nullary constants, the same functor applied again with equal, partly equal '
-        'and different bindings, functors of made predicates, ordinary predicates over '
-        'made predicates used as functors and as arguments. EVERY predicate of every '
-        'program is run on SQLite: a made predicate (or one defined over made ones) must '
-        'equal (1) the reference evaluator with dynamic rebinding of the argument names '
-        'and (2) the same predicate of the program in which the substitution was done by '
-        'hand on our AST (fresh names, no `:=`), compiled by Logica; every other '
-        'predicate (functor, arguments, values, intermediates, bystanders) must equal '
-        'its value in the program without the functor statements. Non-trivial = a made '
-        'predicate whose argument is reached through >= 1 intermediate predicate or whose '
-        'functor is also applied with different bindings, and whose rows differ from the '
-        'functor\'s rows; distinct by (program text, predicate).')
+        'predicates, 1-3 arguments at once (also an argument below another argument, and '
+        'simultaneous bindings F(A: B, B: C) / F(A: B, B: A)), values that are fact twins / '
+        'derived twins of equal signature / predicates that read the argument or the '
+        'functor themselves / functor results / literals and constant predicates for '
+        'nullary constants, the same functor applied again with equal, partly equal and '
+        'different bindings, functors of made predicates, ordinary predicates over made '
+        'predicates used as functors and as arguments (also F reaching a made predicate '
+        'only through an intermediate while reading the argument directly). EVERY '
+        'predicate of every program is run on SQLite: a made predicate (or one defined '
+        'over made ones) must equal (1) the reference evaluator with dynamic rebinding of '
+        'the argument names and (2) the same predicate of the program in which the '
+        'substitution was done by hand on our AST (fresh names, copies keep @OrderBy/'
+        '@Limit, no `:=`), compiled by Logica, and (3) must not change when the made '
+        'predicates are renamed so that their lexicographic order is reversed; every '
+        'other predicate (functor, arguments, values, intermediates, bystanders) must '
+        'equal its value in the program without the functor statements. Non-trivial = a '
+        'made predicate whose argument is reached through >= 1 intermediate predicate or '
+        'whose functor is also applied with different bindings, and whose rows differ '
+        'from the functor\'s rows; distinct by (program text, predicate).')
 ASSUMPTIONS = ['reference evaluator lv/ref.py + dynamic rebinding (lv/functorgen.py '
                'FunctorEval) is the oracle; it is cross-checked on every case against '
                'the reference value of the by-hand substituted program (disagreement = '
@@ -44,7 +49,11 @@ ASSUMPTIONS = ['reference evaluator lv/ref.py + dynamic rebinding (lv/functorgen
                'generates them and checks them against the by-hand substitution only',
                'arguments are bound to predicates of identical signature (field names, '
                'types, functional value), literals are non-negative integers and plain '
-               'lowercase strings', 'no annotations on functor / clones',
+               'lowercase strings', '@OrderBy keys are all columns of a null-free atom-typed '
+               'predicate (total order up to identical rows), so @Limit has one answer; a copy '
+               'of an annotated predicate (and a made predicate whose functor is annotated) '
+               'keeps the annotation, the value bound to an argument does not take the '
+               'argument\'s annotation (compiler/functors.py states both)',
                'CPython sqlite3', 'composite values compared up to SQLite JSON text '
                'encoding', 'dialect-library parse memoised per process']
 OPTS = {}
@@ -166,6 +175,7 @@ def check_prog(prog, only=None):
     text0 = model.print_program(prog0)
     rules, rules2 = parse(text), parse(text2)
     lazy0 = []           # the statement-free program is parsed only when needed
+    lazyv = []           # naming variant: built when the first made predicate passes
     ev_dyn = functorgen.FunctorEval(prog, budget=400000)
     ev_hand = ref.Evaluator(prog2, budget=400000)
     ev_plain = ref.Evaluator(prog0, budget=400000)
@@ -263,6 +273,43 @@ def check_prog(prog, only=None):
                      '--- functor-free program:\n%s' % (d[1], base_text))
                 continue
         done('ok')
+        # naming variant: the made predicates renamed so that their lexicographic order
+        # is reversed (the compiler walks applications in sorted order); same rows
+        if kind != 'untouched' and len(made) > 1:
+            if not lazyv:
+                m = dict(zip(sorted(made), reversed(sorted(made))))
+                tv = model.print_program(functorgen.rename_program(prog, m))
+                lazyv.extend([m, tv, parse(tv)])
+            m, tv, rv = lazyv
+            res2 = {'pred': pred, 'kind': 'renamed', 'labels': [], 'nontrivial': False,
+                    'n': None, 'variant_of': pred}
+            out.append(res2)
+            gotv = run_pred(tv, rv, m.get(pred, pred))
+            if gotv[0] == 'inconclusive':
+                res2['status'], res2['bucket'], res2['detail'] = 'inconclusive', gotv[1], ''
+                continue
+            problem = None
+            if gotv[0] == 'fail':
+                problem = ('compile:' + gotv[1], gotv[2])
+            else:
+                res2['n'] = len(gotv[2])
+                d = vs_ref(cols, exp, gotv[1], gotv[2]) if st == 'ok' else \
+                    vs_rows(got[1], got[2], gotv[1], gotv[2])
+                if d is not None:
+                    problem = d
+            if problem is None:
+                res2['status'], res2['bucket'], res2['detail'] = 'ok', None, ''
+                if m.get(pred, pred) != pred:
+                    res2['labels'].append('name_order_changed')
+            else:
+                res2['status'], res2['bucket'] = 'fail', 'renamed:' + problem[0]
+                res2['detail'] = (
+                    'the program with its made predicates renamed (%s) gives a different '
+                    'result for %s; under the original names it agrees with the '
+                    'reference\n%s\n--- predicate %s, renamed program:\n%s\n'
+                    '--- original program:\n%s' % (
+                        ', '.join('%s->%s' % kv for kv in sorted(m.items())),
+                        m.get(pred, pred), problem[1], pred, tv, text))
     return out, text
 
 
@@ -335,6 +382,14 @@ def shard(ctx, col):
                 continue
             labels = ['kind:' + r['kind']] + ['%s:%s' % (r['kind'], l) if r['kind'] ==
                                               'made' else l for l in r['labels']]
+            if r['kind'] == 'renamed':
+                if r['status'] == 'fail':
+                    col.case((text, r['pred'], 'renamed'), False, labels + ['failed'])
+                    col.fail(r['bucket'], {'prog': model.prog_to_json(prog),
+                                           'pred': r['pred']}, r['detail'])
+                else:
+                    col.case((text, r['pred'], 'renamed'), False, labels)
+                continue
             if r['status'] == 'ok':
                 col.case((text, r['pred']), r['nontrivial'], labels,
                          sample={'predicate': r['pred'], 'rows': r['n'],
